@@ -164,6 +164,9 @@ func c09Fetch(c *mc.Ctx) {
 	}
 	n := 1 + c.Choose(nmax)
 	g := model.ChooseGraph(n, 2, c.Choose)
+	if hasMerge(g) && c.ChooseDev(2) == 1 {
+		g = g.SwapMergeParents()
+	}
 	tblOf := make([]int, n)
 	for i := range tblOf {
 		tblOf[i] = c.ChooseDev(3)
